@@ -182,6 +182,12 @@ impl Session {
     }
 }
 
+/// Debug aid: VERIF_TRACE_IO=1 prints every device write and injected answer on stderr.
+fn trace_io() -> bool {
+    static ON: std::sync::OnceLock<bool> = std::sync::OnceLock::new();
+    *ON.get_or_init(|| std::env::var_os("VERIF_TRACE_IO").is_some())
+}
+
 impl Handler for Session {
     fn write_begin(&self, _site: &'static str, offset: u64, _data: &[u8]) -> IoAnswer {
         {
@@ -194,11 +200,18 @@ impl Handler for Session {
                 return IoAnswer::FailBefore;
             }
         }
-        self.fault_answer(CallKind::Write)
+        let a = self.fault_answer(CallKind::Write);
+        if trace_io() && a != IoAnswer::Proceed {
+            eprintln!("io: write {_site} block {} answered {a:?}", offset / 4096);
+        }
+        a
     }
 
     fn wrote(&self, site: &'static str, offset: u64, data: &[u8]) {
         self.device_writes.fetch_add(1, Ordering::Relaxed);
+        if trace_io() {
+            eprintln!("io: write {site} block {} +{} blocks", offset / 4096, data.len().div_ceil(4096));
+        }
         if let Some(s) = self.sched() {
             s.device_write(offset, data.len());
         }
